@@ -18,7 +18,7 @@ RULE = ("random values nested to depth <=6 over list, tuple (0/1/n elements), di
 ASSUMPTIONS = ["eval namespace maps the constructors and the text \"<class 'int'>\" (Python's own repr of a "
                "default_factory) back to the type",
                "string leaves avoid the literal text '... +' so abbreviation markers can be counted"]
-REQUIRED = ["mon.eval_back", "mon.equals_repr_when_fits", "mon.layout", "mon.cycle", "mon.max_length",
+REQUIRED = ["mon.node_rerendered", "mon.eval_back", "mon.equals_repr_when_fits", "mon.layout", "mon.cycle", "mon.max_length",
             "mon.max_string"]
 MIN_NONTRIVIAL = {"quick": 3000, "thorough": 150000}
 
@@ -199,9 +199,29 @@ def wl_values(ctx, rng, case_no):
     max_width = rng.choice([1, 2, 5, 10, 20, 40, 80, 80, 120, 200, rng.randint(1, 200)])
     indent_size = rng.choice([4, 4, 2, 1, 8])
     expand_all = rng.random() < 0.15
-    out = pretty_repr(v, max_width=max_width, indent_size=indent_size, expand_all=expand_all)
+    route = "value"
+    earlier = []
+    if rng.random() < 0.25:
+        # the traversed tree is a value of its own (pretty_repr and Pretty accept it, tracebacks keep it for locals)
+        # and may be rendered more than once, at other widths first
+        from rich.pretty import traverse
+        route = "traversed-node-rendered-before"
+        node = traverse(v)
+        for _ in range(rng.choice([1, 1, 2])):
+            w0 = rng.choice([1, 5, 10, 20, 40, 80, 200, max(1, max_width - 1), max_width + 1, rng.randint(1, 200)])
+            kw0 = {"max_width": w0, "indent_size": rng.choice([indent_size, 4]), "expand_all": rng.random() < 0.15}
+            earlier.append(kw0)
+            node.render(**kw0) if rng.random() < 0.5 else pretty_repr(node, **kw0)
+        out = pretty_repr(node, max_width=max_width, indent_size=indent_size, expand_all=expand_all)
+        ctx.count("mon.node_rerendered")
+    else:
+        out = pretty_repr(v, max_width=max_width, indent_size=indent_size, expand_all=expand_all)
     wit = {"value": repr(v)[:1500], "max_width": max_width, "indent_size": indent_size,
-           "expand_all": expand_all, "output": out[:2500]}
+           "expand_all": expand_all, "output": out[:2500], "route": route, "earlier_renders_of_the_node": earlier}
+    if route != "value":
+        fresh = pretty_repr(v, max_width=max_width, indent_size=indent_size, expand_all=expand_all)
+        if fresh != out:
+            ctx.violation("rendering-a-traversed-node-depends-on-its-earlier-renders", dict(wit, fresh=fresh[:2500]))
     # 1. evaluates back
     ctx.count("mon.eval_back")
     src = _CLASS.sub(r"\1", out)
